@@ -143,6 +143,10 @@ def snap_voxel(vg):
         "metadata": canon(dict(vg.metadata)),
         "points": np.array(vg.points),
         "filled": int(vg.filled_count),
+        "shape": tuple(int(x) for x in vg.shape),
+        "encoding_type": type(vg.encoding).__name__,
+        "bounds": np.array(vg.bounds),
+        "volume": float(vg.volume),
     }
 
 
@@ -249,7 +253,11 @@ def build(spec):
         else:
             from shapely.geometry import Polygon
 
-            p = primitives.Extrusion(polygon=Polygon([[0, 0], [2, 0], [2, 1], [1, 1.5], [0, 1]]), height=spec["height"], transform=T)
+            ring = np.array([[0, 0], [2, 0], [2, 1], [1, 1.5], [0, 1]], dtype=np.float64)
+            if spec.get("fine_polygon"):
+                # coordinates that need all 17 significant digits
+                ring = ring * (1.0 / 3.0) + rs.uniform(-1e-3, 1e-3, ring.shape) + np.pi
+            p = primitives.Extrusion(polygon=Polygon(ring), height=spec["height"], transform=T)
         p.metadata["nest"] = {"a": [1, 2, 3]}
         if spec.get("visual") == "face":
             p.visual.face_colors = rs.randint(0, 255, (len(p.faces), 4)).astype(np.uint8)
@@ -292,6 +300,11 @@ def build(spec):
     if kind == "voxel":
         dense = rs.rand(3, 4, 2) > 0.4
         dense[0, 0, 0] = True
+        pad = spec.get("pad")
+        if pad:
+            # completely empty planes at the far end (and optionally the near end) of every axis: the declared shape
+            # is larger than the box of the filled cells
+            dense = np.pad(dense, [(pad[3] if len(pad) > 3 else 0, pad[0]), (0, pad[1]), (0, pad[2])])
         enc = spec["encoding"]
         from trimesh.voxel import encoding as E
 
@@ -565,8 +578,8 @@ def b_copy(case, ctx):
                     f"C17|shared_state|{kind}|edit={name}|seen_in={d[0].split('.')[0]}|how={'copy' if how.startswith('copy') and how != 'copy.copy' else how}",
                     f"{how}, edited the {case['edit']} with {names}: the other object changed at {d[:6]}",
                 )
-        ctx.note(nontrivial=nontrivial, cls=[f"kind:{kind}", f"how:{how}", f"edit_side:{case['edit']}"] + [f"edit:{n}" for n in names if n.startswith("primitive.") and ("*=" in n or "+=" in n)]
-                 + (["visual:pbr_zero_factor"] if (case["spec"].get("pbr") or {}).get("metallicFactor") == 0.0 else []))
+        ctx.note(nontrivial=nontrivial, cls=[f"kind:{kind}", f"how:{how}", f"edit_side:{case['edit']}"] + (["voxel:padded_shape"] if case["spec"].get("pad") else []) + (["primitive:fine_polygon"] if case["spec"].get("fine_polygon") and case["spec"].get("prim") == "Extrusion" else []) + [f"edit:{n}" for n in names if n.startswith("primitive.") and ("*=" in n or "+=" in n)]
+                 + (["visual:pbr_zero_factor", "voxel:padded_shape", "primitive:fine_polygon"] if (case["spec"].get("pbr") or {}).get("metallicFactor") == 0.0 else []))
 
 
 # ----------------------------------------------------------------------------------- strategies
@@ -600,12 +613,14 @@ def spec(draw):
         s["sections"] = draw(st.sampled_from([5, 8, 13, 32, 40]))
         s["subdivisions"] = draw(st.sampled_from([0, 1, 2, 3]))
         s["visual"] = draw(st.sampled_from([None, "face"]))
+        s["fine_polygon"] = draw(st.booleans())
     elif kind == "path":
         s["dim"] = draw(st.sampled_from([2, 3]))
         s["colors"] = draw(st.booleans())
         s["vattr"] = draw(st.booleans())
     elif kind == "voxel":
         s["encoding"] = draw(st.sampled_from(["dense", "sparse", "rle", "brle"]))
+        s["pad"] = draw(st.sampled_from([None, [1, 0, 0], [0, 2, 1], [1, 1, 1, 1]]))
         s["T"] = draw(gm.matrix(classes=["identity", "similarity", "translation", "anisotropic"], tscale=3.0))["M"]
     elif kind == "scene":
         s["edges"] = [draw(gm.matrix(classes=["rigid", "translation", "similarity"], tscale=3.0))["M"] for _ in range(3)]
@@ -648,6 +663,8 @@ def grid_cases():
         specs.append({"kind": "primitive", "seed": 1, "warm": True, "prim": pk, "T": T, "radius": 1.5, "height": 2.5, "extents": [1, 2, 3], "sections": 9, "subdivisions": 1, "visual": "face"})
     for enc in ("dense", "sparse", "rle", "brle"):
         specs.append({"kind": "voxel", "seed": 1, "warm": enc != "dense", "encoding": enc, "T": T})
+        specs.append({"kind": "voxel", "seed": 2, "warm": False, "encoding": enc, "T": T, "pad": [1, 2, 1, 1]})
+    specs.append({"kind": "primitive", "seed": 3, "warm": False, "prim": "Extrusion", "T": T, "radius": 1.5, "height": 2.5, "extents": [1, 2, 3], "sections": 9, "subdivisions": 1, "visual": None, "fine_polygon": True})
     specs += [
         {"kind": "mesh", "seed": 5, "warm": True, "mesh": {"parts": [{"kind": "box", "ext": [1, 2, 3]}]}, "visual": "default_inplace", "density": False},
         {"kind": "mesh", "seed": 6, "warm": False, "mesh": {"parts": [{"kind": "octa"}]}, "visual": "default_inplace_face", "density": False},
@@ -671,4 +688,4 @@ def s_hist(ctx):
     ctx.given("C17.copy", copy_case(), n={"quick": 1200, "thorough": 30000})
 
 
-REQUIRED_CLASSES["C17"] = ["kind:mesh", "kind:primitive:Cylinder", "kind:path", "kind:scene", "kind:voxel", "kind:points", "how:deepcopy", "how:copy.copy", "edit_side:original", "edit:primitive.extents*=", "edit:primitive.transform[0,3]+=", "visual:pbr_zero_factor"]
+REQUIRED_CLASSES["C17"] = ["kind:mesh", "kind:primitive:Cylinder", "kind:path", "kind:scene", "kind:voxel", "kind:points", "how:deepcopy", "how:copy.copy", "edit_side:original", "edit:primitive.extents*=", "edit:primitive.transform[0,3]+=", "visual:pbr_zero_factor", "voxel:padded_shape", "primitive:fine_polygon"]
